@@ -4,6 +4,8 @@ printer (tree -> the string a user would write) and Hypothesis strategies.
 
 Tree encoding (JSON-able):  ["n", name] | ["l", number] | ["b", op, L, R] | ["u", E] (unary minus)
                             | ["f", NAME, E] (pointwise / shorthand / aggregate function)
+                            | ["e", name] (external scalar variable: printed as its name, its value is handed to
+                              Track.operate in the dictionary of externals and to `evaluate` as env[name] = number)
 """
 import math
 
@@ -17,6 +19,10 @@ AGGREGATES = ["SUM", "AVG", "VAR", "STD", "MSE", "RMSE", "MAD", "MIN", "MAX", "M
 FUNCS = POINTWISE + SHORTHAND + AGGREGATES
 LITERALS = [0, 1, 2, 3, 0.5, 2.5, 10]
 NAN = float("nan")
+# external scalar variables (documented form track.operate("A=A/factor", {'factor': var})): names disjoint from every feature
+# name and from the function names; values are Python ints and floats, negative ones and a non-dyadic one included
+EXTERNALS = ["k", "w", "factor"]
+EXT_VALUES = [-2, -0.5, 0, 1, 2, 3, 10, 0.5, 2.5, -1.0, 2.0, 4.0, 0.1]
 
 
 class Undef(Exception):
@@ -81,6 +87,9 @@ def evaluate(tree, env, n):
         return Val(v, _dyadic(v))
     if k == "l":
         return Val([tree[1]] * n, True)
+    if k == "e":                       # external scalar: the value the caller passed for this evaluation
+        v = float(env[tree[1]])
+        return Val([v] * n, _dyadic([v]))
     if k == "u":
         e = evaluate(tree[1], env, n)
         return Val([0.0 - v for v in e.vec], e.exact)
@@ -234,15 +243,25 @@ def evaluate(tree, env, n):
     raise ValueError("bad tree %r" % (tree,))
 
 
+def shift_ref(vec, k, circular):
+    """documented meaning of the shift operators (tracklib/core/operators.py, class Operator):
+    SHIFT y(t) = x(t-k), NaN where t-k is not an index; SHIFT_CIRCULAR y(t) = x((t-k) % n).
+    (SHIFT_REV / SHIFT_CIRCULAR_REV are the same with -k; SHIFT_RIGHT / _LEFT are k = +1 / -1.)"""
+    n = len(vec)
+    if circular:
+        return [vec[(i - k) % n] for i in range(n)]
+    return [vec[i - k] if 0 <= i - k < n else NAN for i in range(n)]
+
+
 # ----------------------------------------------------------------------------------------------
 # structural facts used by the non-trivial rule
 def features(tree):
     """dict of structural facts about a tree"""
     f = {"ops": 0, "levels": set(), "noncomm_chain": False, "scalar_left": False, "literal_only": False,
-         "paren_needed": False, "funcs": set(), "neg": False, "depth": 0, "names": set()}
+         "paren_needed": False, "funcs": set(), "neg": False, "depth": 0, "names": set(), "externals": set()}
 
     def lit_only(t):
-        if t[0] == "l":
+        if t[0] in "le":               # an external is a scalar for the evaluator, like a literal
             return True
         if t[0] == "n":
             return False
@@ -263,6 +282,8 @@ def features(tree):
         f["depth"] = max(f["depth"], d)
         if t[0] == "n":
             f["names"].add(t[1])
+        elif t[0] == "e":
+            f["externals"].add(t[1])
         elif t[0] == "u":
             f["neg"] = True
             walk(t[1], d + 1)
@@ -327,7 +348,7 @@ def render(tree, style=None):
         """print t so that it can stand where an operand of binding level >= minlev is required"""
         k = t[0]
         extra = style.pick(8) == 1            # redundant parentheses
-        if k == "n":
+        if k == "n" or k == "e":
             s = t[1]
         elif k == "l":
             s = fmt_num(t[1])
@@ -370,17 +391,33 @@ def render(tree, style=None):
 VALUES = [-2.0, -1.0, -0.5, 0.0, 0.5, 1.0, 2.0, 3.0]
 
 
-def leaf(names):
-    return st.one_of(st.sampled_from(names).map(lambda s: ["n", s]),
-                     st.sampled_from(LITERALS).map(lambda v: ["l", v]))
+def leaf(names, externals=()):
+    alts = [st.sampled_from(names).map(lambda s: ["n", s]),
+            st.sampled_from(LITERALS).map(lambda v: ["l", v])]
+    if externals:
+        alts.append(st.sampled_from(list(externals)).map(lambda s: ["e", s]))
+    return st.one_of(*alts)
 
 
-def trees(names, max_depth=6, with_funcs=True, max_ops=8):
-    """trees with a drawn operator budget: ~70 % binary nodes, ~20 % functions, ~10 % unary minus"""
+def externals_of(tree):
+    """sorted names of the external variables in the tree"""
+    return sorted(features(tree)["externals"])
+
+
+def ext_values(names):
+    """dictionary name -> scalar for the given external names"""
+    names = list(names)
+    return st.lists(st.sampled_from(EXT_VALUES), min_size=len(names), max_size=len(names)).map(
+        lambda vs: dict(zip(names, vs)))
+
+
+def trees(names, max_depth=6, with_funcs=True, max_ops=8, externals=()):
+    """trees with a drawn operator budget: ~70 % binary nodes, ~20 % functions, ~10 % unary minus;
+    externals: names of external scalar variables that may stand where a literal may"""
     def has_name(t):
         if t[0] == "n":
             return True
-        if t[0] == "l":
+        if t[0] in "le":
             return False
         if t[0] in "uf":
             return has_name(t[-1])
@@ -391,7 +428,7 @@ def trees(names, max_depth=6, with_funcs=True, max_ops=8):
     @st.composite
     def node(draw, budget, depth_left):
         if budget <= 0 or depth_left <= 1:
-            return draw(leaf(names))
+            return draw(leaf(names, externals))
         kind = draw(st.sampled_from(kinds))
         if kind == "b":
             lb = draw(st.integers(0, budget - 1))
@@ -408,7 +445,7 @@ def trees(names, max_depth=6, with_funcs=True, max_ops=8):
 
 
 def depth(t):
-    if t[0] in "nl":
+    if t[0] in "nle":
         return 1
     if t[0] in "uf":
         return 1 + depth(t[-1])
